@@ -104,3 +104,167 @@ Proof.
     clear -Hin. revert Hin. generalize 0. induction positions as [|x r IH]; intros z Hin; simpl in Hin; [destruct Hin|].
     destruct Hin as [X|X]; [inversion X; left; reflexivity | right; eapply IH; eauto].
 Qed.
+
+From TskVerif Require Import C01.TotalProofs.
+
+Lemma full_model_total_lemma L ns es Ins Rem q :
+  valid_edgesb L ns es = true -> index_sorted es Ins Rem -> mk_tseq L ns es Ins Rem = Ok q ->
+  forall o, o_lists o = false -> (forall s, In s (o_tracked o) -> 0 <= s < zlen ns) ->
+  forall k, Z.of_nat k < q_ntrees q ->
+  exists t l r,
+    tree_at_index q o k = Ok t /\
+    get (q_bps q) (Z.of_nat k) = Ok l /\ get (q_bps q) (Z.of_nat k + 1) = Ok r /\
+    p_index (t_pos t) = Z.of_nat k /\ p_left (t_pos t) = l /\ p_right (t_pos t) = r /\ l < r /\
+    forall x, l <= x < r -> forall u, 0 <= u < zlen ns ->
+      get (t_parent t) u = Ok (parent_at es x u).
+Proof.
+  intros HVb HI HQ o HL HT k Hk.
+  destruct (tree_at_index_total L ns es Ins Rem q (valid_edgesb_spec _ _ _ HVb) HI HQ o HL HT k Hk) as [t E].
+  destruct (sweep_parent_exact_lemma L ns es Ins Rem q HVb HI HQ o k t E) as (l & r & A).
+  exists t, l, r. split; [exact E | exact A].
+Qed.
+
+Lemma enum_from_SS {A} : forall (l : list A) i, StronglySorted (fun a b : Z * A => fst a < fst b) (enum_from i l).
+Proof.
+  induction l as [|x r IH]; intros i; simpl; constructor; [apply IH|].
+  apply Forall_forall. intros [j a] Hj. apply enum_from_In in Hj as [Hj _]. simpl. lia.
+Qed.
+
+Lemma mutation_edge_all_lemma L ns es Ins Rem q :
+  valid_edgesb L ns es = true -> index_sorted es Ins Rem -> mk_tseq L ns es Ins Rem = Ok q ->
+  forall positions muts steps Oend ids mes,
+  sorted_by spos (enum_from 0 positions) -> (forall p, In p positions -> 0 <= p < L) ->
+  sorted_by msite muts ->
+  (forall m, In m muts -> 0 <= fst m < zlen positions /\ 0 <= snd m < zlen ns) ->
+  sweep L (q_I q) (q_O q) = Ok (steps, Oend) ->
+  init_trees_sites steps (repeat NULL (length ns)) (enum_from 0 positions) muts = Ok (ids, mes) ->
+  Forall2 (fun m e => exists pos, get positions (fst m) = Ok pos /\ e = parent_at (es_id es) pos (snd m)) muts mes.
+Proof.
+  intros HVb HI HQ positions muts steps Oend ids mes HS HP SM MR SW H.
+  pose proof (valid_edgesb_spec _ _ _ HVb) as HV.
+  destruct (tseq_facts L ns es Ins Rem q HVb HI HQ) as (steps' & Oend' & SW' & CH & F & _).
+  rewrite SW in SW'. inversion SW'; subst steps' Oend'.
+  replace (length ns) with (Z.to_nat (zlen ns)) in H by (unfold zlen; lia).
+  assert (PosIn : forall i p, In (i, p) (enum_from 0 positions) -> In p positions).
+  { intros i p Hin. apply get_enum in Hin. eapply get_In; eauto. }
+  assert (FA : filter (fun ip => 0 <=? spos ip) (enum_from 0 positions) = enum_from 0 positions).
+  { apply filter_all_true. intros [i p] Hin. apply Z.leb_le. unfold spos. simpl. destruct (HP p (PosIn i p Hin)). lia. }
+  assert (R : Forall2 (mut_ok es (enum_from 0 positions)) muts mes).
+  { eapply (init_trees_muts_all L ns es Ins Rem q HV HI HQ (enum_from 0 positions) HS (enum_from_SS _ 0)) with (tl := 0); eauto.
+    - intros [i p] Hin. unfold spos. simpl. destruct (HP p (PosIn i p Hin)). lia.
+    - apply pre_init_n; [apply (Hok_id L ns es HV)|]. unfold zlen. lia.
+    - intros m Hm. apply MR. exact Hm.
+    - rewrite FA. intros m Hm. destruct (MR m Hm) as [M1 _].
+      destruct (get_ok positions (fst m) M1) as [p Gp]. exists (fst m, p). split; [apply get_enum; exact Gp | reflexivity].
+    - rewrite FA. exact H. }
+  eapply Forall2_impl; [|exact R]. intros m e (pos & Hin & ->). exists pos. split; [apply get_enum; exact Hin | reflexivity].
+Qed.
+
+(* ---- reverse entry k is tree num_trees - 1 - k ---- *)
+Lemma sorted_lt_unique : forall a b : list Z,
+  StronglySorted Z.lt a -> StronglySorted Z.lt b -> (forall x, In x a <-> In x b) -> a = b.
+Proof.
+  induction a as [|x a IH]; intros b Sa Sb H.
+  - destruct b as [|y b]; [reflexivity|]. exfalso. apply (H y). left; reflexivity.
+  - destruct b as [|y b]; [exfalso; apply (H x); left; reflexivity|].
+    apply StronglySorted_inv in Sa as [Sa1 Sa2]. apply StronglySorted_inv in Sb as [Sb1 Sb2].
+    rewrite Forall_forall in Sa2, Sb2.
+    assert (x = y).
+    { destruct (proj1 (H x) (or_introl eq_refl)) as [E|Hx]; [auto|].
+      destruct (proj2 (H y) (or_introl eq_refl)) as [E|Hy]; [auto|].
+      specialize (Sa2 y Hy). specialize (Sb2 x Hx). lia. }
+    subst y. f_equal. apply IH; auto. intros z. split; intros Hz.
+    + destruct (proj1 (H z) (or_intror Hz)) as [E|X]; [|exact X]. subst z. specialize (Sa2 x Hz). lia.
+    + destruct (proj2 (H z) (or_intror Hz)) as [E|X]; [|exact X]. subst z. specialize (Sb2 x Hz). lia.
+Qed.
+
+Lemma SS_snoc : forall (m : list Z) a, StronglySorted Z.lt m -> (forall y, In y m -> y < a) ->
+  StronglySorted Z.lt (m ++ [a]).
+Proof.
+  induction m as [|x m IHm]; intros a Sm Hm; simpl; [constructor; constructor|].
+  apply StronglySorted_inv in Sm as [Sm1 Sm2]. rewrite Forall_forall in Sm2. constructor.
+  - apply IHm; [exact Sm1 | intros; apply Hm; right; assumption].
+  - apply Forall_forall. intros y Hy. apply in_app_iff in Hy as [Hy|[<-|[]]]; [auto | apply Hm; left; reflexivity].
+Qed.
+
+Lemma SS_rev_mirror L : forall l, StronglySorted Z.lt l -> StronglySorted Z.lt (rev (map (fun b => L - b) l)).
+Proof.
+  induction l as [|x r IH]; intros S; simpl; [constructor|].
+  apply StronglySorted_inv in S as [S1 S2]. rewrite Forall_forall in S2.
+  apply SS_snoc; [apply IH; exact S1|].
+  intros y Hy. apply in_rev in Hy. apply in_map_iff in Hy as (z & <- & Hz). specialize (S2 z Hz). lia.
+Qed.
+
+Lemma get_rev {A} (l : list A) k : 0 <= k < zlen l -> get (rev l) k = get l (zlen l - 1 - k).
+Proof.
+  intros Hk. unfold get, zlen in *.
+  destruct (k <? 0) eqn:E1; [apply Z.ltb_lt in E1; lia|].
+  destruct (Z.of_nat (length l) - 1 - k <? 0) eqn:E2; [apply Z.ltb_lt in E2; lia|].
+  destruct (nth_error l (Z.to_nat (Z.of_nat (length l) - 1 - k))) as [a|] eqn:G.
+  - rewrite (nth_error_nth' _ a) by (rewrite rev_length; lia).
+    rewrite rev_nth by lia. f_equal.
+    replace (length l - S (Z.to_nat k))%nat with (Z.to_nat (Z.of_nat (length l) - 1 - k)) by lia.
+    apply nth_error_nth. exact G.
+  - apply nth_error_None in G. lia.
+Qed.
+
+Lemma reverse_intervals_lemma L ns es Ins Rem q :
+  valid_edgesb L ns es = true -> index_sorted es Ins Rem -> mk_tseq L ns es Ins Rem = Ok q ->
+  exists steps,
+    edge_diffs_reverse L (q_I q) (q_O q) false = Ok (map (rdiff L) steps) /\
+    zlen steps = q_ntrees q /\
+    forall k s, nth_error steps k = Some s ->
+      get (q_bps q) (q_ntrees q - 1 - Z.of_nat k) = Ok (L - s_right s) /\
+      get (q_bps q) (q_ntrees q - Z.of_nat k) = Ok (L - s_left s).
+Proof.
+  intros HVb HI HQ.
+  destruct (mk_tseq_inv L ns es Ins Rem q HQ) as (st0 & oe0 & RI & RO & _).
+  destruct (index_sorted_mirror L es Ins Rem (q_I q) (q_O q) HI RI RO) as (HIm & R1 & R2).
+  pose proof (valid_mirror L ns es HVb) as HVm.
+  destruct (mk_tseq_total L ns (map (mirror_e L) es) (rev Rem) (rev Ins) (valid_edgesb_spec _ _ _ HVm) HIm) as [qm HQm].
+  destruct (mk_tseq_inv L ns _ _ _ qm HQm) as (st1 & oe1 & RI' & RO' & _).
+  assert (EI : q_I qm = map (mirror L) (rev (q_O q))) by congruence.
+  assert (EO : q_O qm = map (mirror L) (rev (q_I q))) by congruence.
+  destruct (tseq_facts L ns _ _ _ qm HVm HIm HQm) as (steps & Oend & SW & CH & F & _ & _ & EBm & ENm & _).
+  destruct (breakpoints_partition_lemma L ns es Ins Rem q HVb HI HQ) as (S1 & _ & _ & Z1 & _ & M1).
+  destruct (breakpoints_partition_lemma L ns _ _ _ qm HVm HIm HQm) as (S2 & _ & _ & Z2 & _ & M2).
+  assert (EQ : q_bps qm = rev (map (fun b => L - b) (q_bps q))).
+  { apply sorted_lt_unique.
+    - apply Sorted_StronglySorted; [intros a b c; lia | exact S2].
+    - apply SS_rev_mirror. apply Sorted_StronglySorted; [intros a b c; lia | exact S1].
+    - intros x. rewrite M2, <- in_rev, in_map_iff. split.
+      + intros [->|[->|(e' & He' & Hx)]].
+        * exists L. split; [lia|]. apply M1. auto.
+        * exists 0. split; [lia|]. apply M1. auto.
+        * apply in_map_iff in He' as (e & <- & He). simpl in Hx.
+          destruct Hx as [->| ->]; [exists (eright e) | exists (eleft e)]; (split; [lia|]); apply M1; right; right; exists e; auto.
+      + intros (b & <- & Hb). apply M1 in Hb as [->|[->|(e & He & Hx)]]; [right; left; lia | left; lia |].
+        right; right. exists (mirror_e L e). split; [apply in_map; exact He|]. simpl.
+        destruct Hx as [->| ->]; [right | left]; reflexivity. }
+  assert (LEN : zlen (q_bps qm) = zlen (q_bps q)).
+  { rewrite EQ. unfold zlen. rewrite rev_length, map_length. reflexivity. }
+  exists steps. split; [|split].
+  - unfold edge_diffs_reverse.
+    unfold sweep in SW. rewrite EI, EO in SW.
+    replace (sweep_fuel (map (mirror L) (rev (q_O q))) (map (mirror L) (rev (q_I q))))
+      with (sweep_fuel (q_I q) (q_O q)) in SW
+      by (unfold sweep_fuel; rewrite !map_length, !rev_length; lia).
+    replace 0 with (L - L) in SW by lia.
+    destruct (sweep_mirror_back L _ L _ _ _ _ SW) as (Kend & ER & _).
+    rewrite ER. reflexivity.
+  - lia.
+  - intros k s Hk. destruct (bps_get L _ _ _ _ _ CH k s Hk) as [B1 B2]. rewrite <- EBm in B1, B2.
+    assert (KR : Z.of_nat k < zlen steps).
+    { assert (nth_error steps k <> None) by congruence. apply nth_error_Some in H. unfold zlen. lia. }
+    rewrite EQ in B1, B2.
+    rewrite get_rev in B1 by (unfold zlen in *; rewrite map_length; lia).
+    rewrite get_rev in B2 by (unfold zlen in *; rewrite map_length; lia).
+    rewrite get_map in B1, B2.
+    assert (ZM : zlen (map (fun b => L - b) (q_bps q)) = q_ntrees q + 1) by (unfold zlen in *; rewrite map_length; lia).
+    rewrite ZM in B1, B2.
+    replace (q_ntrees q + 1 - 1 - (Z.of_nat k + 1)) with (q_ntrees q - 1 - Z.of_nat k) in B2 by lia.
+    replace (q_ntrees q + 1 - 1 - Z.of_nat k) with (q_ntrees q - Z.of_nat k) in B1 by lia.
+    split.
+    + destruct (get (q_bps q) (q_ntrees q - 1 - Z.of_nat k)); try discriminate. inversion B2. f_equal. lia.
+    + destruct (get (q_bps q) (q_ntrees q - Z.of_nat k)); try discriminate. inversion B1. f_equal. lia.
+Qed.
